@@ -123,6 +123,12 @@ def elementwise(cx, op, a, b) -> Arr:
     for x in (a, b):
         if isinstance(x, Arr) and x.owner is not None:
             r.owner = x.owner
+        if isinstance(x, Arr) and getattr(x, "multi_tail", None) is not None:
+            r.multi_tail = x.multi_tail
+        if isinstance(x, Arr) and getattr(x, "multi", None) is not None and len(shape) == 1:
+            r.multi = x.multi
+        elif isinstance(x, Arr) and getattr(x, "multi", None) is not None and len(shape) > 1 and x.ndim == 1:
+            r.multi_tail = x.multi
     return r
 
 
@@ -661,15 +667,46 @@ def uf1(name):
     return UF1[name]
 
 
-def transcendental(name):
-    f = uf1(name)
+TRANSC_APPS: dict = {}  # name -> {id: arg term}
 
+
+def transc_apply(name, v):
+    """Apply sinh_/cosh_/tanh_/exp_ (uninterpreted) and add the *assumed* analytic axioms, instantiated
+    for this argument and pairwise against every earlier argument of the same function."""
+    f = uf1(name)
+    v = V.to_real(v)
+    r = f(v)
+    tab = TRANSC_APPS.setdefault(name, {})
+    if v.get_id() in tab:
+        return r
+    ax = V.AXIOMS
+    if name in ("sinh", "tanh"):
+        ax.append(z3.And(z3.Implies(v == 0, r == 0), z3.Implies(v > 0, r > 0), z3.Implies(v < 0, r < 0)))
+        if name == "tanh":
+            ax.append(z3.And(r > -1, r < 1))
+    elif name == "exp":
+        ax.append(z3.And(r > 0, z3.Implies(v == 0, r == 1), z3.Implies(v > 0, r > 1), z3.Implies(v < 0, r < 1)))
+    elif name == "cosh":
+        ax.append(z3.And(r >= 1, z3.Implies(v == 0, r == 1), z3.Implies(v != 0, r > 1)))
+    for w in tab.values():
+        rw = f(w)
+        if name in ("sinh", "tanh", "exp"):
+            ax.append(z3.And(z3.Implies(v < w, r < rw), z3.Implies(w < v, rw < r), z3.Implies(v == w, r == rw)))
+        if name in ("sinh", "tanh"):
+            ax.append(z3.Implies(v == -w, r == -rw))
+        if name == "cosh":
+            ax.append(z3.Implies(v == -w, r == rw))
+            ax.append(z3.Implies(z3.And(v >= 0, w >= 0), z3.And(z3.Implies(v < w, r < rw), z3.Implies(w < v, rw < r))))
+            ax.append(z3.Implies(z3.And(v <= 0, w <= 0), z3.And(z3.Implies(v < w, r > rw), z3.Implies(w < v, rw > r))))
+    tab[v.get_id()] = v
+    return r
+
+
+def transcendental(name):
     def call(interp, x):
         def one(v):
-            v = V.to_real(v)
-            r = f(v)
-            interp.cx.ghost.setdefault("transc", []).append((name, v, r))
-            return r
+            interp.cx.ghost.setdefault("transc", set()).add(name)
+            return transc_apply(name, v)
 
         if isinstance(x, Arr):
             return map1(x, one, "real")
@@ -876,7 +913,7 @@ def np_searchsorted(interp, a, v, side="left"):
                 z3.And(z3.Implies(i < k, V.to_real(fn(i)) < vv), z3.Implies(i >= k, V.to_real(fn(i)) >= vv)),
             ),
             sources=[a],
-            extra=[(k,), (k - 1,)],
+            extra=[(k,), (k - 1,), (z3.IntVal(0),), (n - 1,)],
         )
     )
     cx.ghost.setdefault("searchsorted", []).append((a, v, k))
